@@ -362,7 +362,15 @@ func (g *G) applyTemplate(property string, p *grl.Program, facts *grl.Facts) str
 		if g.flipTemplate(p, facts, g.R.Chance(1, 4)) {
 			return "flip"
 		}
-	case "C04", "C06", "C08":
+	case "C04":
+		if g.R.Chance(1, 2) {
+			g.convTemplate(p)
+			return "conversions"
+		}
+		if g.flipTemplate(p, facts, g.R.Chance(1, 2)) {
+			return "flip"
+		}
+	case "C06", "C08":
 		if g.R.Chance(1, 2) && g.flipTemplate(p, facts, g.R.Chance(1, 2)) {
 			return "flip"
 		}
@@ -394,3 +402,48 @@ func (g *G) applyTemplate(property string, p *grl.Program, facts *grl.Facts) str
 }
 
 var _ = core.Mix
+
+
+// convTemplate (C04): one rule whose action list walks through numeric conversions between kinds
+// and widths with boundary-rich values (all within the destination's range), on Go facts and JSON.
+func (g *G) convTemplate(p *grl.Program) {
+	f := g.R.PickStr("F", "G")
+	o := "G"
+	if f == "G" {
+		o = "F"
+	}
+	type cell struct {
+		dst string
+		src *grl.Expr
+	}
+	big := grl.LitInt(g.R.PickInt64(4294967296, 9007199254740993, 1099511627776))
+	cells := []cell{
+		{f + ".U64", grl.Bin("+", grl.PathE(grl.P(o+".U16")), big)},                // uint + int -> int64 -> uint64
+		{f + ".I", grl.Bin("+", grl.PathE(grl.P(o+".U64")), big)},                  // stays exact above 2^53
+		{f + ".U64", grl.Bin("*", grl.LitFloat(g.R.PickStr2F(2.5, 1024.0, 3000000000.0)), grl.LitInt(4))},
+		{f + ".U16", grl.Bin("+", grl.LitFloat(0.75), grl.LitInt(g.R.PickInt64(1, 300, 65534)))}, // float -> narrow uint, truncation
+		{f + ".U8", grl.Bin("/", grl.LitInt(g.R.PickInt64(7, 255, 510)), grl.LitInt(2))},
+		{f + ".I8", grl.Bin("-", grl.LitFloat(0.5), grl.LitInt(g.R.PickInt64(1, 100, 128)))},     // negative float -> int8 (toward zero)
+		{f + ".I32", grl.PathE(grl.P(o + ".U16"))},
+		{f + ".F32", grl.Bin("+", grl.PathE(grl.P(o+".I8")), grl.LitFloat(0.25))},
+		{f + ".F", grl.PathE(grl.P(o + ".U64"))},
+		{f + ".P.X", grl.PathE(grl.P(o + ".F"))},
+		{f + ".P.Z", grl.PathE(grl.P(o + ".I32"))},
+	}
+	r := &grl.Rule{Name: "Cv", Salience: sal(int64(g.R.Intn(3))), When: grl.LitBool(true)}
+	n := g.R.Range(3, 5)
+	for _, i := range g.R.Perm(len(cells))[:n] {
+		op := "="
+		if g.R.Chance(1, 4) {
+			op = g.R.PickStr("+=", "-=", "*=")
+		}
+		r.Then = append(r.Then, &grl.Action{K: "assign", Path: grl.P(cells[i].dst), Op: op, E: cells[i].src})
+	}
+	// slice elements and JSON take part too
+	r.Then = append(r.Then,
+		&grl.Action{K: "assign", Path: grl.P(f + ".A").Idx(grl.LitInt(int64(g.R.Intn(3)))), Op: "=", E: grl.Bin("*", grl.PathE(grl.P(o+".F32")), grl.LitInt(4))},
+		&grl.Action{K: "assign", Path: grl.P(f + ".AF").Idx(grl.LitInt(int64(g.R.Intn(3)))), Op: g.R.PickStr("=", "+="), E: grl.PathE(grl.P(o + ".I8"))},
+		&grl.Action{K: "assign", Path: grl.P("J.n"), Op: g.R.PickStr("=", "+=", "*="), E: grl.PathE(grl.P(o + ".U8"))},
+		&grl.Action{K: "retract", Name: "Cv"})
+	p.Rules = append(p.Rules, r)
+}
